@@ -56,6 +56,7 @@ pub struct E1<'c> {
     /// a cycle / non-convergence panic happened in the current revision (its heads stay
     /// poisoned until the next revision: requests involving them may see PropagatedPanic)
     pub cycle_panicked_in_rev: bool,
+    pub fb_defect_seen: bool,
 }
 
 pub fn expected_obs(ev: &mut Eval, prog: &Program, n: usize, arg: u32, deep: bool) -> Result<Obs, Abort> {
@@ -133,7 +134,7 @@ impl<'c> E1<'c> {
         fault::MASK.store(case.fault_mask, SeqCst);
         let db = SimDatabase::new(&case.prog, &world);
         let oracles = crate::oracles::for_case(case);
-        E1 { case, db: Some(db), world, out: RunOut::default(), step: 0, never: Default::default(), oracles, queries: 0, cycle_panicked_in_rev: false }
+        E1 { case, db: Some(db), world, out: RunOut::default(), step: 0, never: Default::default(), oracles, queries: 0, cycle_panicked_in_rev: false, fb_defect_seen: false }
     }
 
     fn db(&self) -> &SimDatabase {
@@ -155,6 +156,12 @@ impl<'c> E1<'c> {
     fn drain(&mut self, what: &crate::oracles::StepInfo) {
         let evs = self.db().shared.take_log();
         self.digest_events(&evs);
+        if std::env::var("VERIF_TRACE").is_ok() {
+            eprintln!("--- step {} {:?}", self.step, self.case.hist.get(self.step));
+            for e in &evs {
+                eprintln!("    {e:?}");
+            }
+        }
         for e in &evs {
             if let Ev::Salsa { k, .. } = e {
                 let name: &'static str = match k {
@@ -191,6 +198,7 @@ impl<'c> E1<'c> {
         let mut either_cycle_panic = false;
         let mut must_panic = false;
         let mut bad_mode = false;
+        let mut cr_opt = None;
         if prog.is_cyclic() {
             let cr = crate::refcyc::CycRef::solve(prog, &self.world);
             bad_mode = cr.bad_active(n);
@@ -200,6 +208,7 @@ impl<'c> E1<'c> {
             if bad_mode {
                 self.out.bump("bad_mode_requests");
             }
+            cr_opt = Some(cr);
         } else {
             let mut ev = Eval::new(prog, &self.world);
             exp = expected_obs(&mut ev, prog, n, arg, deep);
@@ -246,7 +255,21 @@ impl<'c> E1<'c> {
                 (Ok(e), Ok(g)) => {
                     self.out.digest = hash_str(self.out.digest, &format!("{g:?}"));
                     if e != g {
-                        self.out.viol("value_mismatch", step, format!("node {n} arg {arg}: expected {e:?} got {g:?}"));
+                        // diagnosis of the recorded C13 finding: a member of a fallback cycle
+                        // returned its body value (gets its own violation class, so that any
+                        // other mismatch is still reported as value_mismatch)
+                        let fb = prog.nodes.iter().any(|x| x.kind == Kind::Fb);
+                        // the recorded finding needs a mutable step (new revision or cancellation)
+                        // before the request; histories without one are judged exactly. Wrong body
+                        // values stay memoized, so later requests of the same run can show them too.
+                        let mechanism = self.case.hist[..self.step.min(self.case.hist.len())].iter().any(|s| s.is_mut());
+                        let known_shape = fb && mechanism && cr_opt.as_ref().is_some_and(|cr| cr.fb_body_value_model_matches(n, g.v));
+                        if known_shape {
+                            self.fb_defect_seen = true;
+                            self.out.viol("fb_member_returned_body_value", step, format!("node {n}: expected {e:?} got {g:?} (= body value of a fallback-cycle member re-executed in a later revision)"));
+                        } else {
+                            self.out.viol("value_mismatch", step, format!("node {n} arg {arg}: expected {e:?} got {g:?}"));
+                        }
                     }
                     info.ok = true;
                 }
